@@ -25,6 +25,17 @@ package main
 //     follower, the variant again … so that "offset = start + n" cannot be confused with "offset = n";
 //     the open mode of the File rotates (xfSeqOpenModes); servers include the os-backed one with WithMaxTxPacket and a
 //     request server whose FilePut is no OpenFileWriter (reads through the handle must fail cleanly).
+// (b3) a client packet size ABOVE what the server returns per READ (xfGenCapSeq, and the generators above under the
+//     same configurations): every chunk of a read is then filled by several READ requests, the 2nd, 3rd, … asking for
+//     the rest at chunk offset + bytes so far, while count and File offset advance by the bytes copied. Client packet
+//     sizes 2*cap+1, 3*cap, 100000, 262000 (MaxPacketUnchecked) against the real servers with the default max payload
+//     (cap 32768) and with WithMaxTxPacket(65536), and small packet sizes against the scripted peer whose DATA replies
+//     carry at most 1, 2, 3 (or 10000 of 32768) bytes: a chunk takes three or more READs. Only the REFILLING read
+//     paths are asked: with UseConcurrentReads(false) everything (Read/ReadAt of any length, sequential WriteTo);
+//     with concurrent reads on, Read/ReadAt of at most one packet and WriteTo of a file of at most one packet
+//     (sequential after STAT). (The concurrent readers treat a short DATA reply as end of file: with a packet size
+//     above the server's max payload they lose data on the unchanged code - outside C01's quantifier "as long as the
+//     client's packet size does not exceed the server's maximum payload" and not asked here.)
 // (c) race: goroutines hammer ReadAt/WriteAt/Stat/Truncate while two others call Close; the raw
 //     client->server byte stream is parsed: one CLOSE frame, no frame with that handle after it.
 // Model: every sequence is also evaluated by the Lean driver op xfer.seq (when present).
@@ -39,6 +50,7 @@ import (
 	"os"
 	"path/filepath"
 	"runtime"
+	"sort"
 	"strings"
 	"sync"
 	"sync/atomic"
@@ -123,6 +135,29 @@ type xfSeqCase struct {
 	Open   string `json:"open,omitempty"`
 	PreLen int    `json:"pre_open_len,omitempty"`
 	Tag    string `json:"tag,omitempty"` // which generator wrote the sequence (histogram only)
+	// scripted peer only: DATA replies carry at most this many bytes (a server may always answer a READ short)
+	ShortCap int `json:"short_cap,omitempty"`
+}
+
+// ReadCap is the most bytes the server returns for one READ (0: whatever was asked for).
+func (sc xfSeqCase) ReadCap() int {
+	if sc.Srv.Kind == "peer" {
+		return sc.ShortCap
+	}
+	return xfMaxTx(sc.Srv)
+}
+
+// xfReadsPerChunk: how many READ requests that return data the fullest chunk of a read of n bytes at off needs on a
+// file of `size` bytes when the client asks in chunks of mp and the server returns at most cap bytes per READ.
+func xfReadsPerChunk(mp, cap int, size, off, n int64) int {
+	most := 0
+	for ; n > 0 && off < size; off, n = off+int64(mp), n-int64(mp) {
+		avail := min(n, int64(mp), size-off)
+		if k := int((avail + int64(cap) - 1) / int64(cap)); k > most {
+			most = k
+		}
+	}
+	return most
 }
 
 // The modes the sequences rotate through: all of them give a handle that reads and writes.
@@ -159,6 +194,9 @@ func (sc xfSeqCase) Text() string {
 	fmt.Fprintf(&sb, "%s %s S%d w%d q%d", sc.Srv, sc.Cfg, sc.FileLen, sc.Window, sc.Limit)
 	if sc.Open != "" {
 		fmt.Fprintf(&sb, " open=%s pre%d", sc.Open, sc.PreLen)
+	}
+	if sc.ShortCap != 0 {
+		fmt.Fprintf(&sb, " cap%d", sc.ShortCap)
 	}
 	sb.WriteByte(':')
 	for _, o := range sc.Ops {
@@ -356,7 +394,7 @@ func xfRunSeq(sc xfSeqCase, real *xfReal, hold *xfPeerHold, dir string) (res xfS
 	path := "/f"
 	closesBefore := 0
 	if sc.Srv.Kind == "peer" {
-		po := xfPeerOpts{File: before, Exists: !mode.Fresh, Window: sc.Window, PermSeed: sc.Seed}
+		po := xfPeerOpts{File: before, Exists: !mode.Fresh, Window: sc.Window, PermSeed: sc.Seed, ShortCap: sc.ShortCap}
 		if mode.Fresh {
 			po.File = nil
 		}
@@ -665,6 +703,24 @@ func xfRunSeq(sc xfSeqCase, real *xfReal, hold *xfPeerHold, dir string) (res xfS
 			path = "/" + xfWhenceName(op.Wh)
 		}
 		key := "seq/" + op.K + path
+		if rc := sc.ReadCap(); rc > 0 && rc < sc.Cfg.MP && !closed && !noRead && (isR || op.K == "wt") {
+			// the client's packet size lies above what the server returns per READ: how often the fullest chunk of this
+			// call had to be asked for (distribution only; the oracle is the os.File twin below)
+			size := sizeBefore
+			n := int64(op.N)
+			if op.K == "wt" {
+				if st, e := tw.Stat(); e == nil {
+					size = st.Size()
+				}
+				start, n = offBefore, max(size-offBefore, 0)
+			}
+			k := xfReadsPerChunk(sc.Cfg.MP, rc, size, start, n)
+			ks := fmt.Sprint(k)
+			if k >= 3 {
+				ks = "3+"
+			}
+			res.Marks["above-cap|call="+op.K+"|path="+strings.TrimPrefix(path, "/")+"|data-READs-per-chunk="+ks]++
+		}
 		if closed {
 			// closed state is final: every method answers os.ErrClosed
 			if !errors.Is(serr, os.ErrClosed) {
@@ -986,8 +1042,11 @@ func xfRunSeq(sc xfSeqCase, real *xfReal, hold *xfPeerHold, dir string) (res xfS
 
 // ---------- sequence generator ----------
 
-func xfGenSeq(rng *rand.Rand, cfg xfCfg, n int, failable, disturb bool) (S int, ops []xfOp) {
+// readCap (0 < readCap < mp only): the server returns at most that many bytes per READ; lengths and offsets are then
+// also aimed at its multiples (where the number of READs a chunk needs changes).
+func xfGenSeq(rng *rand.Rand, cfg xfCfg, n int, failable, disturb bool, readCap int) (S int, ops []xfOp) {
 	mp := cfg.MP
+	capped := readCap > 0 && readCap < mp
 	S = xfPickSize(rng, cfg)
 	if S > 3*mp*4+2 {
 		S = mp*rng.Intn(5) + rng.Intn(mp+1)
@@ -995,6 +1054,9 @@ func xfGenSeq(rng *rand.Rand, cfg xfCfg, n int, failable, disturb bool) (S int, 
 	limit := int64(3*mp*4 + 64) // keep positions modest: sparse files are materialised in memory by two backends
 	lens := func() int {
 		c := []int{0, 1, mp - 1, mp, mp + 1, 2 * mp, 2*mp + 1, 3*mp - 1, 3*mp + 1, mp*cfg.Conc + 1}
+		if capped {
+			c = append(c, readCap, readCap+1, 2*readCap, 2*readCap+1, 3*readCap+1, mp+2*readCap+1)
+		}
 		l := c[rng.Intn(len(c))]
 		if rng.Intn(4) == 0 {
 			l = rng.Intn(3*mp + 2)
@@ -1009,6 +1071,9 @@ func xfGenSeq(rng *rand.Rand, cfg xfCfg, n int, failable, disturb bool) (S int, 
 	}
 	offs := func(cur int) int64 {
 		c := []int{0, 1, mp - 1, mp, mp + 1, cur - 1, cur, cur + 1, cur / 2, cur + mp}
+		if capped {
+			c = append(c, readCap-1, readCap+1, cur-2*readCap-1, cur-3*readCap)
+		}
 		v := c[rng.Intn(len(c))]
 		if v < 0 {
 			v = 0
@@ -1100,13 +1165,161 @@ func xfGenSeq(rng *rand.Rand, cfg xfCfg, n int, failable, disturb bool) (S int, 
 		}
 		ops = append(ops, op)
 	}
-	// close, then every method once more
+	return S, append(ops, xfAfterCloseOps(rng, mp)...)
+}
+
+// xfAfterCloseOps: Close, then 4..18 of the methods once more (each must answer os.ErrClosed).
+func xfAfterCloseOps(rng *rand.Rand, mp int) (ops []xfOp) {
 	ops = append(ops, xfOp{K: "cl"})
 	after := []xfOp{{K: "r", N: 1}, {K: "r"}, {K: "ra", N: 2}, {K: "w", N: 1}, {K: "w"}, {K: "wa", N: mp + 1}, {K: "rf", N: 3, Src: "len"}, {K: "rf", N: 0, Src: "opaque"},
 		{K: "rfc", N: 2, Conc: 1, Src: "opaque"}, {K: "wt"}, {K: "sk", Wh: 0}, {K: "sk", Wh: 1}, {K: "sk", Wh: 2}, {K: "sk", Wh: 7}, {K: "sk", Off: -1}, {K: "st"}, {K: "tr", N: 1}, {K: "cl"}}
 	rng.Shuffle(len(after), func(i, j int) { after[i], after[j] = after[j], after[i] })
-	ops = append(ops, after[:4+rng.Intn(len(after)-3)]...)
-	return S, ops
+	return append(ops, after[:4+rng.Intn(len(after)-3)]...)
+}
+
+// ---------- a packet size above what the server returns per READ ----------
+
+// xfGenCapSeq writes a sequence for a client whose packet size mp lies above rc, the most bytes the server returns for
+// one READ: a chunk of l bytes is filled by ceil(l/rc) READ requests, each asking for the rest of the chunk at
+// chunk offset + bytes collected so far; the count returned, and with it the File offset of Read and WriteTo, advances
+// by the bytes copied. The lengths, offsets and file sizes are aimed at the places where the number of READs per chunk
+// changes (1, rc-1, rc, rc+1, 2rc-1, 2rc, 2rc+1, 3rc, 3rc+1, mp-1, mp, and for the multi-chunk reads mp+1, mp+rc+1,
+// mp+2rc+1, 2mp, 2mp+1, 2mp+2rc+1, 3mp+1), at reads that end exactly at, one before and one beyond end of file, and
+// at reads whose 2nd, 3rd … READ meets end of file.
+// The generator keeps track of the exact size and offset (nothing in these sequences fails), because with concurrent
+// reads ON only the refilling paths may be asked (see the head of the file): Read/ReadAt of at most mp bytes, and
+// WriteTo only while the file has at most mp bytes (it is truncated to such a size first). With concurrent reads off
+// every read path refills and nothing is held back.
+func xfGenCapSeq(rng *rand.Rand, cfg xfCfg, rc, n int) (S int, ops []xfOp) {
+	mp := cfg.MP
+	refillOnly := cfg.CR
+	pick := func(c []int, lo, hi int) int {
+		var ok []int
+		for _, v := range c {
+			if v >= lo && v <= hi {
+				ok = append(ok, v)
+			}
+		}
+		if len(ok) == 0 {
+			return lo
+		}
+		return ok[rng.Intn(len(ok))]
+	}
+	limit := 4*mp + 64
+	S = pick([]int{2*rc + 1, 3 * rc, 3*rc + 1, mp - 1, mp, mp + 1, mp + 2*rc + 1, 2*mp + 1, 2*mp + 2*rc + 2, 3*mp + 2}, 1, limit)
+	size, pos := S, 0
+	one := []int{1, rc - 1, rc, rc + 1, 2*rc - 1, 2 * rc, 2*rc + 1, 2*rc + 1, 3 * rc, 3*rc + 1, mp - 1, mp, mp}
+	many := []int{mp + 1, mp + rc + 1, mp + 2*rc + 1, 2 * mp, 2*mp + 1, 2*mp + 2*rc + 1, 3*mp + 1}
+	readLen := func() int {
+		switch {
+		case !refillOnly && rng.Intn(3) == 0:
+			return pick(many, 1, limit)
+		case rng.Intn(5) == 0:
+			return 1 + rng.Intn(mp)
+		}
+		return pick(one, 1, mp)
+	}
+	// an offset for a read of l bytes
+	readOff := func(l int) int {
+		c := []int{0, 1, rc - 1, rc, rc + 1, 2*rc + 1, mp, mp + 1, size - 1, size, size + 1, size - 2*rc - 1, size - 2*rc, size - 3*rc - 1, size - mp, pos,
+			size - l, size - l + 1, size - l - 1, size - l + rc, size - l + 2*rc + 1}
+		return pick(c, 0, size+1)
+	}
+	seekTo := func(o int) {
+		switch rng.Intn(3) {
+		case 0:
+			ops = append(ops, xfOp{K: "sk", Off: int64(o)})
+		case 1:
+			ops = append(ops, xfOp{K: "sk", Off: int64(o - pos), Wh: 1})
+		default:
+			ops = append(ops, xfOp{K: "sk", Off: int64(o - size), Wh: 2})
+		}
+		pos = o
+	}
+	grow := func(at, l int) {
+		if l > 0 && at+l > size {
+			size = at + l
+		}
+	}
+	kinds := []string{"r", "r", "r", "r", "ra", "ra", "ra", "wt", "wt", "sk", "sk", "w", "wa", "rf", "tr", "st"}
+	for len(ops) < n {
+		switch k := kinds[rng.Intn(len(kinds))]; k {
+		case "r":
+			l := readLen()
+			if pos >= size || rng.Intn(3) == 0 {
+				seekTo(readOff(l))
+			}
+			ops = append(ops, xfOp{K: "r", N: l})
+			pos += max(0, min(l, size-pos))
+		case "ra":
+			l := readLen()
+			ops = append(ops, xfOp{K: "ra", N: l, Off: int64(readOff(l))})
+		case "wt":
+			if refillOnly && size > mp {
+				// concurrent reads on: only a file of at most one packet is copied by the refilling reader
+				size = pick([]int{2*rc + 1, 3 * rc, 3*rc + 1, mp - 1, mp}, 1, mp)
+				ops = append(ops, xfOp{K: "tr", N: size})
+			}
+			if pos >= size || rng.Intn(2) == 0 {
+				seekTo(pick([]int{0, 1, rc - 1, rc, rc + 1, size - 2*rc - 1, size - 3*rc, size - mp, size - mp - 2*rc - 1, size - 1, size}, 0, size))
+			}
+			ops = append(ops, xfOp{K: "wt"})
+			pos = max(pos, size)
+		case "sk":
+			switch wh := rng.Intn(3); wh {
+			case 0:
+				seekTo(readOff(readLen()))
+			case 1:
+				d := []int{-2*rc - 1, -rc, -1, 0, 1, rc, -pos - 1, -mp}[rng.Intn(8)]
+				ops = append(ops, xfOp{K: "sk", Off: int64(d), Wh: 1})
+				if pos+d >= 0 {
+					pos += d
+				}
+			default:
+				d := []int{0, -1, -2*rc - 1, -mp, -size, -size - 1, 1}[rng.Intn(7)]
+				ops = append(ops, xfOp{K: "sk", Off: int64(d), Wh: 2})
+				if size+d >= 0 {
+					pos = size + d
+				}
+			}
+		case "w", "rf":
+			l := pick([]int{1, rc + 1, 2*rc + 1, mp, mp + 1}, 1, limit)
+			if pos+l > limit {
+				seekTo(pick([]int{0, 1, rc, mp}, 0, size))
+			}
+			op := xfOp{K: k, N: l, Seed: rng.Intn(251)}
+			if k == "rf" {
+				op.Src = []string{"len", "opaque", "size", "limited"}[rng.Intn(4)]
+			}
+			ops = append(ops, op)
+			grow(pos, l)
+			pos += l
+		case "wa":
+			l := pick([]int{1, rc + 1, 2*rc + 1, mp + 1}, 1, limit)
+			o := pick([]int{0, 1, rc, size - 1, size, size + 1, mp}, 0, limit-l)
+			ops = append(ops, xfOp{K: "wa", N: l, Seed: rng.Intn(251), Off: int64(o)})
+			grow(o, l)
+		case "tr":
+			size = pick([]int{0, 2 * rc, 2*rc + 1, 3*rc + 1, mp, mp + 1, size - 1, size + 1, size + 2*rc + 1, 2*mp + 1}, 0, limit)
+			ops = append(ops, xfOp{K: "tr", N: size})
+		case "st":
+			ops = append(ops, xfOp{K: "st"})
+		}
+	}
+	return S, append(ops, xfAfterCloseOps(rng, mp)...)
+}
+
+// xfAboveCapMPs are the client packet sizes that make every full chunk take three or more READs against a server
+// that returns at most rc bytes per READ: just above twice the cap, three times the cap, and two plain numbers a
+// user would write (a WRITE of 262000 bytes still fits the 256 KiB frame limit of the servers).
+func xfAboveCapMPs(rc int) []int {
+	var out []int
+	for _, v := range []int{2*rc + 1, 3 * rc, 100000, 262000} {
+		if v > 2*rc && v <= 262000 && (len(out) == 0 || out[len(out)-1] < v) {
+			out = append(out, v)
+		}
+	}
+	return out
 }
 
 // xfNameSeq is a written-out sequence around one disturbance of the name (act, then act2): S is the exact size of
@@ -1426,9 +1639,10 @@ func checkC12(c *lib.Ctx) {
 	r := c.R
 	res := &xfRes{r: r}
 	thorough := c.Tier == "thorough"
-	r.Rule = "(a) WriteTo offset sweep: file sizes 0..3*mp*min(conc,3)+2 x start offsets {0,1,mp,size-1,size,size+1} x UseConcurrentReads x UseFstat x (mp,conc) on the scripted peer; (b) PRNG sequences (quick ~12, thorough ~40 calls + Close + 4..18 calls after Close) of Read/ReadAt/Write/WriteAt/ReadFrom(6 source kinds)/ReadFromWithConcurrency/WriteTo/Seek(whence 0,1,2 and invalid 5,7,-1; negative targets)/Stat/Truncate on os-backed server, request server and scripted peer (in order and permuted replies); in every second peer sequence a quarter of the read/write calls have 1-2 PRNG-chosen chunks answered with status 4/3, in every second request-server sequence the handler refuses writes beyond a PRNG quota: there the reference is offset-before + the intact prefix the server side recorded as stored (ReadAt/WriteAt: unchanged) x client options (quick: every (mp,conc) pair with rotating booleans, thorough: full product), mirrored on an *os.File; (b') per server kind and option set 7 (thorough 42) written-out sequences around a disturbed NAME with the handle open (op nm: rename away / remove / rotate / replace by a shorter or longer file / directory / symlink / dangling link, a second different one later; file sizes {0,1,mp,mp+1,2mp,3mp+2}; after each: Seek(x, io.SeekEnd) for x in {0,-1,-size,-size-1 (negative result: rejected without moving),+mp+1}, append, Read, Stat, WriteTo, Truncate, ReadFrom, ReadAt/WriteAt, Close), and every third PRNG sequence draws nm steps (each followed by 0-2 end-relative seeks) among its calls: real renames/removals on the os-backed server, differing STAT/LSTAT(path) vs FSTAT(handle) answers on the request server and the scripted peer, the same done to the os.File twin's name; every Seek's requests are read off the wire (none, or exactly one FSTAT on the handle for io.SeekEnd); (b'') per option set 6 (thorough: all 96) written-out chains of offset-relative calls on ONE handle: Seek to a non-zero start, a transfer variant {ReadFromWithConcurrency(0,1,3), ReadFrom(Len/Size/Stat/LimitedReader: concurrent when UseConcurrentWrites and more than one packet; opaque: sequential), Write, WriteTo, Read} of 2-4 packets, a follower {Write, empty Write+Write, ReadFrom, ReadFromWithConcurrency, Read, WriteTo, Seek(0/1, io.SeekCurrent)}, the transfer variant again, the follower again, Seek(0, io.SeekCurrent), a third transfer, Write, Stat, Close: offset, bytes and content after every call against the os.File twin; x open mode of the File {O_RDWR, +O_CREATE, +O_APPEND, +O_TRUNC, Client.Create(), O_CREATE|O_TRUNC, O_CREATE|O_EXCL on a new name} rotating over chains and PRNG sequences (twin opened alike; O_APPEND is a no-op for the servers, so the twin is opened without it) x servers {os, rs, os+allocator, rs+allocator+max-tx 65536, os+max-tx 65536, os+allocator+max-tx 65536 (these three also with client packet size 40000), request server without sftp.OpenFileWriter (reads through the Filewrite handle must fail with the failure status, deliver nothing and leave the offset alone; writes, seeks, Stat, Truncate go on), client packet size 40000 > default max payload with concurrent reads off}; (c) Close raced by 2 closers against 3..8 goroutines of ReadAt/WriteAt/Stat/Truncate on the scripted peer with the raw request stream parsed; non-trivial = a sequence that moves the offset through at least two different methods; distinct by the whole case text"
+	r.Rule = "(a) WriteTo offset sweep: file sizes 0..3*mp*min(conc,3)+2 x start offsets {0,1,mp,size-1,size,size+1} x UseConcurrentReads x UseFstat x (mp,conc) on the scripted peer; (b) PRNG sequences (quick ~12, thorough ~40 calls + Close + 4..18 calls after Close) of Read/ReadAt/Write/WriteAt/ReadFrom(6 source kinds)/ReadFromWithConcurrency/WriteTo/Seek(whence 0,1,2 and invalid 5,7,-1; negative targets)/Stat/Truncate on os-backed server, request server and scripted peer (in order and permuted replies); in every second peer sequence a quarter of the read/write calls have 1-2 PRNG-chosen chunks answered with status 4/3, in every second request-server sequence the handler refuses writes beyond a PRNG quota: there the reference is offset-before + the intact prefix the server side recorded as stored (ReadAt/WriteAt: unchanged) x client options (quick: every (mp,conc) pair with rotating booleans, thorough: full product), mirrored on an *os.File; (b') per server kind and option set 7 (thorough 42) written-out sequences around a disturbed NAME with the handle open (op nm: rename away / remove / rotate / replace by a shorter or longer file / directory / symlink / dangling link, a second different one later; file sizes {0,1,mp,mp+1,2mp,3mp+2}; after each: Seek(x, io.SeekEnd) for x in {0,-1,-size,-size-1 (negative result: rejected without moving),+mp+1}, append, Read, Stat, WriteTo, Truncate, ReadFrom, ReadAt/WriteAt, Close), and every third PRNG sequence draws nm steps (each followed by 0-2 end-relative seeks) among its calls: real renames/removals on the os-backed server, differing STAT/LSTAT(path) vs FSTAT(handle) answers on the request server and the scripted peer, the same done to the os.File twin's name; every Seek's requests are read off the wire (none, or exactly one FSTAT on the handle for io.SeekEnd); (b'') per option set 6 (thorough: all 96) written-out chains of offset-relative calls on ONE handle: Seek to a non-zero start, a transfer variant {ReadFromWithConcurrency(0,1,3), ReadFrom(Len/Size/Stat/LimitedReader: concurrent when UseConcurrentWrites and more than one packet; opaque: sequential), Write, WriteTo, Read} of 2-4 packets, a follower {Write, empty Write+Write, ReadFrom, ReadFromWithConcurrency, Read, WriteTo, Seek(0/1, io.SeekCurrent)}, the transfer variant again, the follower again, Seek(0, io.SeekCurrent), a third transfer, Write, Stat, Close: offset, bytes and content after every call against the os.File twin; x open mode of the File {O_RDWR, +O_CREATE, +O_APPEND, +O_TRUNC, Client.Create(), O_CREATE|O_TRUNC, O_CREATE|O_EXCL on a new name} rotating over chains and PRNG sequences (twin opened alike; O_APPEND is a no-op for the servers, so the twin is opened without it) x servers {os, rs, os+allocator, rs+allocator+max-tx 65536, os+max-tx 65536, os+allocator+max-tx 65536 (these three also with client packet size 40000), request server without sftp.OpenFileWriter (reads through the Filewrite handle must fail with the failure status, deliver nothing and leave the offset alone; writes, seeks, Stat, Truncate go on), client packet size 40000 > default max payload with concurrent reads off}; (b3) client packet size ABOVE what the server returns per READ, a chunk taking three or more READs (each asking for the rest at chunk offset + bytes so far): MaxPacketUnchecked(2*cap+1, 3*cap, 100000, 262000) against {os, rs} x {allocator off, on} with the default max payload (cap 32768) and with max-tx 65536 (quick: per server kind one size with concurrent reads off and one with them on, rotating with the seed so that the default-payload servers together see all four sizes either way; thorough: all), and packet sizes 3,4,7 (32768) against the scripted peer whose DATA replies carry at most 1,2,3 (10000) bytes x MaxConcurrentRequestsPerFile rotating; with concurrent reads OFF these configurations get all the generators above (chains, name sequences, PRNG sequences with lengths/offsets also aimed at cap, cap+1, 2cap, 2cap+1, 3cap+1, mp+2cap+1) plus xfGenCapSeq; with concurrent reads ON only xfGenCapSeq, which keeps to the refilling read paths (Read/ReadAt of at most one packet; WriteTo after the file was truncated to at most one packet = sequential after STAT). xfGenCapSeq: 6-13 (small packets: 6-17) calls of Read x4/ReadAt x3/WriteTo x2/Seek x2/Write/WriteAt/ReadFrom/Truncate/Stat + Close + calls after Close; read lengths from {1,cap-1,cap,cap+1,2cap-1,2cap,2cap+1,3cap,3cap+1,mp-1,mp} and (concurrent reads off) {mp+1,mp+cap+1,mp+2cap+1,2mp,2mp+1,2mp+2cap+1,3mp+1}, a fifth uniform; offsets from {0,1,cap-1,cap,cap+1,2cap+1,mp,mp+1,size-1,size,size+1,size-2cap-1,size-2cap,size-3cap-1,size-mp,current, and such that the read ends at / one before / one beyond end of file or its 2nd/3rd READ meets it}; file sizes {2cap+1,3cap,3cap+1,mp-1,mp,mp+1,mp+2cap+1,2mp+1,2mp+2cap+2,3mp+2}; 10 such sequences per big-packet job, 24 per small-packet job (thorough x4); the histogram (above-cap|…|data-READs-per-chunk) says how many READs the fullest chunk of each read call took; (c) Close raced by 2 closers against 3..8 goroutines of ReadAt/WriteAt/Stat/Truncate on the scripted peer with the raw request stream parsed; non-trivial = a sequence that moves the offset through at least two different methods; distinct by the whole case text"
 	model := xfProbeModel(c)
 	xfProbeDefects(&model)
+	r.Note("client packet sizes above the server's max payload are asked on the REFILLING read paths only (Read/ReadAt of at most one packet, every read with UseConcurrentReads(false), sequential WriteTo): the concurrent readers take a short DATA reply for end of file, so with concurrent reads on and such a packet size ReadAt of several packets and WriteTo of a larger file lose data on the unchanged code - outside C01's quantifier (\"as long as the client's packet size does not exceed the server's maximum payload\"), not asked and not reported here")
 	if model.Seq {
 		r.Note("every modellable sequence is also evaluated by the Lean driver op xfer.seq (switches wtm=%d rfm=%d taken from the implementation)", model.WTM, model.RFM)
 	}
@@ -1452,6 +1666,19 @@ func checkC12(c *lib.Ctx) {
 	addModel := func(sc xfSeqCase, sr xfSeqResult) {
 		if !model.Seq || !sr.Modelled || len(sr.Fails) > 0 || sr.Impl == "" || sc.FileLen > 150000 {
 			return
+		}
+		if sc.Cfg.MP > 40000 {
+			// (the model works on byte lists: sequences that move more than about half a megabyte take seconds)
+			moved := 0
+			for _, o := range sc.Ops {
+				moved += o.N
+				if o.K == "wt" {
+					moved += sc.FileLen
+				}
+			}
+			if moved > 600000 {
+				return
+			}
 		}
 		var calls []string
 		for _, o := range sc.Ops {
@@ -1582,15 +1809,64 @@ func checkC12(c *lib.Ctx) {
 				Seed: c.Rand.Int63(), Idx: len(jobs)})
 		}
 	}
-	perJob, seqLen := 14, 12
-	if thorough {
-		perJob, seqLen = 30, 40
+	// (b3) a client packet size above what the server returns per READ, such that a chunk takes THREE or more READs
+	// (the 40000 above takes two). Real servers: packet sizes xfAboveCapMPs of the server's max payload; quick gives every
+	// server kind one size with concurrent reads off (every generator) and one with them on (xfGenCapSeq only, which keeps
+	// to the refilling paths), rotating so that the default-payload servers together see every size; thorough all sizes.
+	capSpecs := []xfSrvSpec{{Kind: "os"}, {Kind: "rs"}, {Kind: "os", Alloc: true}, {Kind: "rs", Alloc: true},
+		{Kind: "os", MaxTx: 65536}, {Kind: "rs", Alloc: true, MaxTx: 65536}, {Kind: "os", Alloc: true, MaxTx: 65536}, {Kind: "rs", MaxTx: 65536}}
+	for si, sp := range capSpecs {
+		mps := xfAboveCapMPs(xfMaxTx(sp))
+		for k, mp := range mps {
+			for b, cr := range []bool{false, true} {
+				if !thorough && k != (si+rot+2*b)%len(mps) {
+					continue
+				}
+				jobs = append(jobs, xfJob{Spec: sp, Cfg: xfCfg{MP: mp, Unchecked: true, Conc: []int{1, 3, 64}[(si+k+b)%3], CR: cr, CW: (si+k)%2 == 0, Fstat: (si/2+k+b)%2 == 0},
+					Seed: c.Rand.Int63(), Idx: len(jobs)})
+			}
+		}
 	}
+	// Scripted peer whose DATA replies carry at most ShortCap bytes (any server may answer a READ short): small packet
+	// sizes, so that every boundary is met many times.
+	peerCaps := [][2]int{{3, 1}, {4, 1}, {7, 1}, {7, 2}, {7, 3}, {32768, 10000}}
+	if thorough {
+		peerCaps = append(peerCaps, [2]int{2, 1}, [2]int{7, 5}, [2]int{4, 3}, [2]int{32768, 16383}, [2]int{32768, 1000})
+	}
+	for pi, pc := range peerCaps {
+		for b, cr := range []bool{false, true} {
+			for ci, conc := range xfConcs {
+				if !thorough && ci != (pi+b+rot)%len(xfConcs) {
+					continue
+				}
+				jobs = append(jobs, xfJob{Spec: xfSrvSpec{Kind: "peer"}, ShortCap: pc[1], Cfg: xfCfg{MP: pc[0], Unchecked: (pi+ci)%2 == 1, Conc: conc, CR: cr, CW: (pi+ci+b)%2 == 0, Fstat: (pi/2+ci)%2 == 0},
+					Seed: c.Rand.Int63(), Idx: len(jobs)})
+			}
+		}
+	}
+	perJob0, seqLen := 14, 12
+	if thorough {
+		perJob0, seqLen = 30, 40
+	}
+	// order of execution: the small-packet jobs against the capped peer first (they take milliseconds, and of the failures
+	// of one key the first three are kept: those should be the small inputs), then the jobs that move the most bytes
+	// (the pool is then busy to the end)
+	order := make([]int, len(jobs))
+	for i := range order {
+		order[i] = i
+	}
+	weight := func(j xfJob) int {
+		if j.ShortCap > 0 && j.Cfg.MP <= 1000 {
+			return 1 << 30
+		}
+		return j.Cfg.MP
+	}
+	sort.SliceStable(order, func(a, b int) bool { return weight(jobs[order[a]]) > weight(jobs[order[b]]) })
 	var sampleN int32
 	hangs := &xfHangBudget{}
 	defer hangs.Report(r)
-	xfParallel(len(jobs), runtime.GOMAXPROCS(0), func(w, ji int) {
-		job := jobs[ji]
+	xfParallel(len(jobs), runtime.GOMAXPROCS(0), func(w, oi int) {
+		job := jobs[order[oi]]
 		rng := rand.New(rand.NewSource(job.Seed))
 		dir := filepath.Join(root, fmt.Sprintf("j%d", job.Idx))
 		if err := os.Mkdir(dir, 0o755); err != nil {
@@ -1640,7 +1916,31 @@ func checkC12(c *lib.Ctx) {
 				chainSeqs = 24
 			}
 		}
-		for s := -nameSeqs - chainSeqs; s < perJob; s++ {
+		// what the server returns per READ, when that is less than the client's packet size: the sequences of
+		// xfGenCapSeq follow the others (s >= perJob); with concurrent reads on they are the only ones (the other
+		// generators ask the concurrent readers too)
+		perJob, capSeqs := perJob0, 0
+		readCap := xfSeqCase{Srv: job.Spec, ShortCap: job.ShortCap}.ReadCap()
+		if readCap >= job.Cfg.MP {
+			readCap = 0
+		}
+		if readCap > 0 {
+			switch {
+			case job.Cfg.MP <= 1000:
+				capSeqs = 24
+			case job.Cfg.MP <= 40000:
+				capSeqs = 8
+			default:
+				capSeqs, perJob, nameSeqs = 10, 4, min(nameSeqs, 2)
+			}
+			if thorough {
+				capSeqs *= 4
+			}
+			if job.Cfg.CR {
+				perJob, nameSeqs, chainSeqs = 0, 0, 0
+			}
+		}
+		for s := -nameSeqs - chainSeqs; s < perJob+capSeqs; s++ {
 			if hangs.Spent(job.Spec) {
 				return
 			}
@@ -1664,20 +1964,27 @@ func checkC12(c *lib.Ctx) {
 				mp := job.Cfg.MP
 				S = []int{0, 1, mp + 1, 3*mp + 2, mp, 2 * mp}[(job.Idx+t)%6]
 				ops = xfNameSeq(job.Cfg, S, variant, xfNameActs[ai], xfNameActs[(ai+3+variant%2)%len(xfNameActs)])
+			} else if s >= perJob {
+				n := seqLen/2 + rng.Intn(seqLen)
+				if job.Cfg.MP > 1000 {
+					n = 6 + rng.Intn(8)
+				}
+				S, ops = xfGenCapSeq(rng, job.Cfg, readCap, n)
+				tag = "above-cap|generator=xfGenCapSeq"
 			} else {
 				n := seqLen/2 + rng.Intn(seqLen)
 				if job.Cfg.MP > 1000 {
 					n = 4 + rng.Intn(6)
 				}
-				S, ops = xfGenSeq(rng, job.Cfg, n, job.Spec.Kind == "peer" && s%2 == 1, s%3 == 2 && !job.Spec.NoOFW)
+				S, ops = xfGenSeq(rng, job.Cfg, n, job.Spec.Kind == "peer" && s%2 == 1 && job.ShortCap == 0, s%3 == 2 && !job.Spec.NoOFW, readCap)
 			}
-			sc := xfSeqCase{Srv: job.Spec, Cfg: job.Cfg, FileLen: S, Ops: ops, Window: 1, Tag: tag}
+			sc := xfSeqCase{Srv: job.Spec, Cfg: job.Cfg, FileLen: S, Ops: ops, Window: 1, Tag: tag, ShortCap: job.ShortCap}
 			// the open mode rotates over the sequences (the written-out name sequences keep track of the exact size
 			// themselves and stay with plain O_RDWR)
 			if s >= 0 || s < -nameSeqs {
 				name := xfSeqOpenModes[(job.Idx*3+s+nameSeqs+chainSeqs+rot)%len(xfSeqOpenModes)]
-				if m, _ := xfOpenModeByName(name); m.Empties() && (strings.HasPrefix(tag, "chain|first=wt") || strings.HasPrefix(tag, "chain|first=r|")) {
-					name = "rdwr+append" // these chains need something to read
+				if m, _ := xfOpenModeByName(name); m.Empties() && (strings.HasPrefix(tag, "chain|first=wt") || strings.HasPrefix(tag, "chain|first=r|") || s >= perJob) {
+					name = "rdwr+append" // these chains need something to read (and xfGenCapSeq keeps track of the exact size)
 				}
 				if name != "rdwr" {
 					xfApplySeqOpen(&sc, name)
@@ -1688,8 +1995,16 @@ func checkC12(c *lib.Ctx) {
 					sc.Seed = rng.Int63()
 					sc.Window = 2 + rng.Intn(job.Cfg.Conc+1)
 				}
-			} else if job.Spec.Kind == "rs" && s%2 == 1 {
+			} else if job.Spec.Kind == "rs" && s%2 == 1 && s < perJob {
 				sc.Limit = int64(S/2 + 1 + rng.Intn(S/2+2*job.Cfg.MP+2))
+			}
+			if readCap > 0 {
+				hsCap := fmt.Sprintf("above-cap|srv=%s|mp%d|cap%d|cr%d", job.Spec, job.Cfg.MP, readCap, xfB(job.Cfg.CR))
+				if tag != "" {
+					tag += ";"
+				}
+				tag += hsCap
+				sc.Tag = tag
 			}
 			if job.Spec.Perm && s >= 0 {
 				sc.Seed = rng.Int63()
